@@ -44,6 +44,11 @@ pub enum Op {
     /// 2-4 equal datagrams back to back to a closed UDP port on multiplexer (index) - the kernel
     /// refuses every second one - then the multiplexer is closed
     UdpBurstToClosedPort(u16, u8, u16),
+    /// 1-3 queries from a fresh source port to a resolver on port 53 on multiplexer (index); the
+    /// resolver answers all of them (true: the flow is complete and its socket released while
+    /// the multiplexer stays open) or all but the last (false: the flow lives on)
+    #[serde(alias = "UdpDns")]
+    UdpDnsExchange(u16, u8, bool),
 }
 
 #[derive(Serialize, Deserialize, Debug, Clone)]
@@ -268,6 +273,24 @@ async fn run_history(c: &Case) -> Verdict {
         });
         udp_servers.push((sock, got));
     }
+    // a resolver on port 53 of a loopback address private to this worker (needs the right to bind it)
+    let dns_addr = format!("127.{}.{}.53:53", 1 + (std::process::id() % 250), 1 + crate::engine::SHARD.load(std::sync::atomic::Ordering::SeqCst) % 250);
+    let dns: Option<(std::sync::Arc<tokio::net::UdpSocket>, std::sync::Arc<std::sync::Mutex<Vec<(std::net::SocketAddr, Vec<u8>)>>>)> = match tokio::net::UdpSocket::bind(&dns_addr).await {
+        Ok(sock) => {
+            let sock = std::sync::Arc::new(sock);
+            let got = std::sync::Arc::new(std::sync::Mutex::new(vec![]));
+            let (s2, g2) = (sock.clone(), got.clone());
+            tokio::spawn(async move {
+                let mut buf = vec![0u8; 70_000];
+                while let Ok((n, from)) = s2.recv_from(&mut buf).await {
+                    g2.lock().unwrap().push((from, buf[..n].to_vec()));
+                }
+            });
+            Some((sock, got))
+        }
+        Err(_) => None,
+    };
+    let mut dns_exchanges = 0u16;
     let mut muxes: Vec<UdpMuxState> = vec![];
     let mut udp_seq = 0u32;
     // a UDP port nobody listens on (from this worker's partition below the ephemeral range)
@@ -615,12 +638,12 @@ async fn run_history(c: &Case) -> Verdict {
                 }
             }
             Op::UdpReplies(i, flow, n, size, reading) => {
-                let live: Vec<usize> = muxes.iter().enumerate().filter(|(_, m)| m.send.is_some() && !m.flows.is_empty()).map(|(k, _)| k).collect();
+                let live: Vec<usize> = muxes.iter().enumerate().filter(|(_, m)| m.send.is_some() && m.flows.keys().any(|f| *f < 3)).map(|(k, _)| k).collect();
                 if live.is_empty() {
                     continue;
                 }
                 let k = live[idx(*i, live.len())];
-                let flows: Vec<(u8, std::net::SocketAddr)> = muxes[k].flows.iter().map(|(a, b)| (*a, *b)).collect();
+                let flows: Vec<(u8, std::net::SocketAddr)> = muxes[k].flows.iter().filter(|(f, _)| **f < 3).map(|(a, b)| (*a, *b)).collect();
                 let (f, peer) = flows[*flow as usize % flows.len()];
                 let f = f as usize;
                 let n = 1 + *n as usize % 120;
@@ -724,6 +747,77 @@ async fn run_history(c: &Case) -> Verdict {
                 }
                 model.udp -= m.flows.len() as i64;
                 m.flows.clear();
+            }
+            Op::UdpDnsExchange(i, q, complete) => {
+                let Some((dns_sock, dns_got)) = &dns else {
+                    crate::engine::bump("no-port-53", 1);
+                    continue;
+                };
+                let live: Vec<usize> = muxes.iter().enumerate().filter(|(_, m)| m.send.is_some()).map(|(k, _)| k).collect();
+                if live.is_empty() {
+                    continue;
+                }
+                let k = live[idx(*i, live.len())];
+                let q = 1 + *q as usize % 3;
+                dns_exchanges += 1;
+                let src: std::net::SocketAddr = format!("10.8.{}.1:{}", k, 5000 + dns_exchanges).parse().unwrap();
+                let dst = dns_sock.local_addr().unwrap();
+                let mut queries = vec![];
+                for _ in 0..q {
+                    udp_seq += 1;
+                    let mut payload = vec![0x51u8; 40];
+                    payload[..4].copy_from_slice(&udp_seq.to_be_bytes());
+                    let rec = crate::reference::udpmux::encode_in(&crate::reference::udpmux::Datagram { source: src, destination: dst, app_name: "app".into(), payload: payload.clone() });
+                    muxes[k].send.as_mut().unwrap().send_data(Bytes::from(rec), false).map_err(|e| herr("h2", e.to_string()))?;
+                    queries.push(payload);
+                }
+                let deadline = std::time::Instant::now() + Duration::from_secs(3);
+                let mut peer = None;
+                while std::time::Instant::now() < deadline {
+                    let got = dns_got.lock().unwrap();
+                    if queries.iter().all(|p| got.iter().any(|(_, x)| x == p)) {
+                        peer = got.iter().find(|(_, x)| *x == queries[0]).map(|(a, _)| *a);
+                        break;
+                    }
+                    drop(got);
+                    tokio::time::sleep(Duration::from_millis(2)).await;
+                }
+                let Some(peer) = peer else {
+                    return viol("relay:udp-datagram-not-delivered", format!("step {}: {} queries to the resolver on port 53 did not all arrive", step, q));
+                };
+                *model.up.entry("http2").or_default() += 40 * q as u64;
+                model.udp += 1;
+                let answers = if *complete { q } else { q - 1 };
+                let m = &mut muxes[k];
+                let recv = m.recv.as_mut().unwrap();
+                let mut received = 0u64;
+                for _ in 0..answers {
+                    dns_sock.send_to(&[0x61u8; 60], peer).await.map_err(|e| herr("udp", e.to_string()))?;
+                    let deadline = tokio::time::Instant::now() + Duration::from_millis(1000);
+                    loop {
+                        let before = received;
+                        received += take_records(&mut m.buf);
+                        if received > before {
+                            break;
+                        }
+                        match tokio::time::timeout_at(deadline, recv.data()).await {
+                            Ok(Some(Ok(b))) => {
+                                let _ = recv.flow_control().release_capacity(b.len());
+                                m.buf.extend_from_slice(&b);
+                            }
+                            _ => break,
+                        }
+                    }
+                }
+                ensure!(received == 60 * answers as u64, "relay:udp-replies-lost", "step {}: the resolver answered {} of {} queries with 60 bytes each, {} payload bytes reached the client", step, answers, q, received);
+                *model.down.entry("http2").or_default() += received;
+                if *complete {
+                    // every query answered: the flow is over and its socket released
+                    model.udp -= 1;
+                } else {
+                    // the flow lives on until the multiplexer goes (its key is private to this exchange)
+                    m.flows.insert(100 + (dns_exchanges % 150) as u8, peer);
+                }
             }
             Op::CloseUdpMux(i) => {
                 let live: Vec<usize> = muxes.iter().enumerate().filter(|(_, m)| m.send.is_some()).map(|(k, _)| k).collect();
@@ -843,6 +937,7 @@ impl Suite for HistorySuite {
             3 => (any::<u16>(), 0u8..3, any::<u8>(), any::<u16>(), any::<bool>()).prop_map(|(a, b, c, d, e)| Op::UdpReplies(a, b, c, d, e)),
             1 => any::<u16>().prop_map(Op::CloseUdpMux),
             1 => (any::<u16>(), any::<u8>(), any::<u16>()).prop_map(|(a, b, c)| Op::UdpBurstToClosedPort(a, b, c)),
+            2 => (any::<u16>(), any::<u8>(), prop_oneof![3 => Just(true), 1 => Just(false)]).prop_map(|(a, b, c)| Op::UdpDnsExchange(a, b, c)),
         ];
         prop::collection::vec(op, 5..=30).prop_map(|ops| Case { ops }).boxed()
     }
@@ -875,6 +970,7 @@ impl Suite for HistorySuite {
                 }
                 Op::UdpReplies(..) if have_flow => v.push("udp-replies"),
                 Op::UdpBurstToClosedPort(..) if have_mux => v.push("udp-burst-to-closed-port"),
+                Op::UdpDnsExchange(_, _, true) if have_mux => v.push("port-53-flow-completed"),
                 _ => {}
             }
         }
